@@ -389,6 +389,44 @@ def check_C16(c):
     c.rep.assumptions = ["Reshape follows the tensor's own data order and is checked under C13", "a divergence that needs a column-major operand is attributed here"]
 
 
+def check_C20(c):
+    q = c.quick
+    # corpora (TLC runs once per corpus; every configuration replays the same behaviours against the same Level-1 result)
+    lay = ("C", "T", "Col", "Step")
+    corp = []
+    k = elem_consts(q, ["Arith", "FMA"], laya=lay, layb=("C", "T", "Col"), modes=("safe", "unsafe", "reuse", "incr"), layd=("C", "Col"),
+                    mismatch=False, MinRank=1, MaxRank=2 if q else 3, MaxDim=3, HiRank=3)
+    corp.append(("cfg-arith", "MC_elem", k, ELEM_INV, ["-ops", "add,sub,mul,div,pow,mod", "-entries", "func,method"]))
+    k = dict(MaxDim=2 if q else 3, MaxRankT=2, LayA={S(x) for x in ("C", "T", "Col")}, LayB={S(x) for x in ("C", "T", "Col")},
+             Modes={S("safe"), S("reuse"), S("incr")}, Kinds={S(x) for x in ("MatMul", "MatVecMul", "Inner", "Outer")})
+    corp.append(("cfg-linalg", "MC_linalg", k, ["TypeOK", "Emit"], ["-entries", "func,method"]))
+    k = dict(MinRank=0, MaxRank=3, MaxDim=3, MaxDimHi=2 if q else 3, HiRank=3, Ctors={S("C")}, MaxLen=2, WithSlice=False, PermPalette=False,
+             Alphabet={S(x) for x in ("T", "UT", "Transpose", "Materialize", "SafeT")}, BothTargets=False)
+    corp.append(("cfg-trans", "MC_trans", k, ["TypeOK", "Emit"], []))
+    k = dict(MinRank=0, MaxRank=3, MaxDim=3, MaxDimHi=2, HiRank=3, Ctors={S("C")}, ViewDepth=1, Mode=S("flat"), Lays={S("C")})
+    corp.append(("cfg-iter", "MC_iter", k, ["TypeOK", "Emit"], []))
+    k = {"MaxRank": 3, "MaxDim": 3, "MaxDim4": 2, "Ctors": {S("C")}, "Rich": False}
+    corp.append(("cfg-addr", "MC_addr", k, ["TypeOK", "Emit"], []))
+    configs = [(("verif",), ""), (("verif",), "f64"), (("verif",), "f32"),
+               (("verif", "noasm"), ""), (("verif", "noasm"), "f64"), (("verif", "noasm"), "f32"),
+               (("verif", "inplacetranspose"), ""), (("verif", "inplacetranspose"), "f64")]
+    for name, module, k, inv, extra in corp:
+        cases = c.tlc(module, name, k, inv)
+        for tags, eng in configs:
+            if eng and name in ("cfg-addr",):
+                continue
+            dts = {"": "float32,float64", "f64": "float64", "f32": "float32"}[eng]
+            if not eng and name in ("cfg-trans", "cfg-iter", "cfg-addr"):
+                dts = "float64,int16"
+            c.replay("%s:%s:%s" % (name, "+".join(tags[1:]) or "default", eng or "std"), cases, tags=tags, dtypes=dts,
+                     pals="ident,signed", engine=eng, rotate=0, extra=extra + (["-oprotate", "2", "-palrotate", "1"] if q else []))
+    c.rep.rule = ("the behaviour corpora of C03 (transposes), C06/C07 (arithmetic incl. fused multiply-add, all option modes), C09 (products) "
+                  "and C01/C05 (index arithmetic) are enumerated once by TLC and replayed under engines {default, Float32Engine, "
+                  "Float64Engine} x builds {default, noasm, inplacetranspose}; every configuration is compared with the same Level-1 result "
+                  "(values, operands, destinations, returned tensor), hence with each other")
+    c.rep.assumptions = ["the specialised engines are exercised on their own element type only", "refusal accepted where the default engine's check accepts it"]
+
+
 def mask_consts(q, mode):
     suffix = "-q" if q else "-t"
     if mode == "iter":
@@ -447,7 +485,7 @@ def check_C05(c):
     c.rep.assumptions = ["Coord() after exhaustion is not specified and not compared", "the masked multi-iterator's validity stepping is outside the statement"]
 
 
-CHECKS = {"C01": check_C01, "C02": check_C02, "C03": check_C03, "C04": check_C04, "C13": check_C13, "C06": check_C06, "C07": check_C07, "C11": check_C11, "C12": check_C12, "C08": check_C08, "C09": check_C09, "C10": check_C10, "C05": check_C05, "C15": check_C15, "C14": check_C14, "C16": check_C16}
+CHECKS = {"C01": check_C01, "C02": check_C02, "C03": check_C03, "C04": check_C04, "C13": check_C13, "C06": check_C06, "C07": check_C07, "C11": check_C11, "C12": check_C12, "C08": check_C08, "C09": check_C09, "C10": check_C10, "C05": check_C05, "C15": check_C15, "C14": check_C14, "C16": check_C16, "C20": check_C20}
 
 HOOK_COMMITS = []
 NOT_YET = {}
@@ -512,6 +550,10 @@ LEVELS = {
             "technique": "the TLC-enumerated operation families (MC_elem, MC_reduce, MC_linalg, MC_assemble, MC_views, MC_copy) re-parameterised with column-major operand layouts and replayed",
             "text": "bounded exhaustive model checking: the same Level-1 specification (which has no notion of data order) is the oracle for every combination of row- and column-major operands and destinations in bounds",
             "note": "bounded (rank<=3, dims<=3); refusal accepted"},
+    "C20": {"ref": "DESIGN.md 4 C20",
+            "technique": "TLC-enumerated behaviour corpora (MC_elem incl. FMA, MC_linalg, MC_trans, MC_iter, MC_addr) replayed under every engine x build-tag configuration against one Level-1 result",
+            "text": "bounded exhaustive model checking: the configuration is a parameter that appears in no expected value of the specification, so each engine/build must reproduce the same specified result; 8 configurations x 5 corpora",
+            "note": "bounded as the underlying families; three builds are compiled from /repo's working tree per run"},
     "C01": {"ref": "DESIGN.md 4 C01",
             "technique": "TLC-enumerated behaviours of the TLA+ tensor machine (MC_addr) replayed on the real library",
             "text": "bounded exhaustive model checking: TLC enumerates every shape/constructor/layout in bounds and the complete coordinate->cell table of each; every table entry is executed (At and SetAt) on the real tensor for every element type, with a full snapshot of all storage around each write",
